@@ -84,7 +84,7 @@ CLAIMS = {
             "Usability/equality of concrete unpickled objects; importability of classes.", "4.C20"),
 }
 
-REQUIRE = {"C02": "T1", "C07": "R07", "C15": "S8"}  # key rule that must exist before the property is claimed
+REQUIRE = {"C02": "T1", "C07": "R07", "C15": "S1"}  # key rule that must exist before the property is claimed
 
 PENDING = "check not implemented yet in this session (design in DESIGN.md section 4); not claimed until its rules run clean"
 
